@@ -26,6 +26,8 @@
    NOT covered (DESIGN.md section 7): arbitrary byte strings from coverage-guided mutation.        *)
 EXTENDS Naturals, Sequences, FiniteSets
 
+CONSTANT Tier      \* "quick" | "thorough": how many base values have their encodings corrupted
+
 \* ------------------------------------------------------------------ limits (documented in the code)
 ChainCodecMax == 8192      \* LegacyECChain: cbor-gen default slice limit (gpbft/cbor_gen.go:189,218)
 ChainMaxLen == 128         \* gpbft.ChainMaxLen, enforced by ECChain.Validate (gpbft/chain.go:366)
@@ -147,7 +149,11 @@ OpsOf(it) ==
   \cup (IF it.k = "chain" /\ it.n > 0 THEN {[op |-> "resize", arg |-> "vmax1"]} ELSE {})   \* ChainMaxLen + 1 tipsets
 
 \* bases whose encodings are corrupted (a subset of the round-trip bases keeps the table small)
-CorruptBases(ty) == {Norm(ty, Default), Norm(ty, AllMin)} \cup {Norm(ty, [Default EXCEPT !.chain = 1, !.just = 0, !.entries = 1])}
+CorruptBases(ty) == {Norm(ty, Default), Norm(ty, AllMin)}
+                    \cup (IF Tier = "thorough"
+                          THEN {Norm(ty, [Default EXCEPT !.chain = 1, !.just = 0, !.entries = 1]),
+                                Norm(ty, [Default EXCEPT !.chain = ChainMaxLen, !.key = KeyMax, !.sig = 1])}
+                          ELSE {})
 CasesFor(ty, d) == UNION {{[kind |-> "cor", ty |-> ty, d |-> d, p |-> it.p, k |-> it.k, max |-> it.max, n |-> it.n, op |-> o.op, arg |-> o.arg] : o \in OpsOf(it)}
                           : it \in Items(ty, d)}
 CorruptionCases == UNION {UNION {CasesFor(ty, d) : d \in CorruptBases(ty)} : ty \in Types}
@@ -187,7 +193,9 @@ PreOfField(f, fuel) ==
 Pre(ty) == PreOfField(Root(ty), 8)
 AllocSlack == 262144
 \* decode of n input bytes of type ty: constant slack + 24 bytes per input byte + header-claimed pre-allocations
-CborCeiling(ty, n) == AllocSlack + 24 * n + 2 * Pre(ty)
+CborCeilingP(pre, n) == AllocSlack + 24 * n + 2 * pre
+CborCeiling(ty, n) == CborCeilingP(Pre(ty), n)
 \* zstd: the pooled 1 MiB output buffer, decoder state, then the CBOR decode of at most ZstdCap bytes
-ZstdCeiling(ty, n) == 4 * ZstdCap + CborCeiling(ty, IF n > ZstdCap THEN ZstdCap ELSE n) + 24 * ZstdCap
+ZstdCeilingP(pre, n) == 4 * ZstdCap + CborCeilingP(pre, IF n > ZstdCap THEN ZstdCap ELSE n) + 24 * ZstdCap
+ZstdCeiling(ty, n) == ZstdCeilingP(Pre(ty), n)
 =============================================================================
